@@ -1020,8 +1020,12 @@ def parse_primary_expr(lexer, unary_minus=False):
         result = NodeLiteral(ValueString(token.value), token.pos)
         result = deref_or_invoke(lexer, result)
     elif token.type == "int":
+        try:
+            intvalue = int(token.value)
+        except ValueError:
+            raise CklSyntaxError("Int literal too long", token.pos)
         result = NodeLiteral(
-            ValueInt(int(token.value) * (-1 if unary_minus else 1)),
+            ValueInt(intvalue * (-1 if unary_minus else 1)),
             token.pos,
         )
         result = invoke(lexer, result)
@@ -1039,7 +1043,7 @@ def parse_primary_expr(lexer, unary_minus=False):
     elif token.type == "pattern":
         try:
             pattern = ValuePattern(token.value[2:-2])
-        except re.error as e:
+        except (re.error, OverflowError, RecursionError) as e:
             raise CklSyntaxError(f"Invalid pattern ({e})", token.pos)
         result = NodeLiteral(pattern, token.pos)
         result = invoke(lexer, result)
